@@ -227,7 +227,9 @@ def check(case):
         for rnd in (2, 3):
             sc_r, g_r = m.compute_sensitivities(
                 lay(theta), x.copy(), dlogp_dpsi=None if U is None else U.copy(), reduce=True, **kw)
-            case.close(np.asarray(g_r, dtype=float), g, rtol=0, atol=0,
+            # (to rounding: numpy's pairwise sums may differ in the last bits with the alignment of a fresh buffer; what
+            # the clause looks for - contributions accumulating over calls - is orders of magnitude larger)
+            case.close(np.asarray(g_r, dtype=float), g, rtol=1e-13, atol=1e-15 * float(np.max(np.abs(g))) if np.size(g) else 0.0,
                        what='reduced gradient of evaluation %d at the same point vs the first evaluation' % rnd)
             case.close(sc_r, sc, rtol=0, atol=0, what='score of evaluation %d at the same point' % rnd)
 
